@@ -26,7 +26,8 @@ PROP = {
          "estimate_size() raised", "FuzzyTerm.simplify()", "NestedParent, NestedChildren", "an unfielded Every()", "Or([NestedParent"],
  "C16": ['"a NOT AND b"', '"a ANDNOT ANDNOT b"', '"a (+b)"', "a range the field cannot interpret", "a quoted value on a BOOLEAN",
          "GtLtPlugin raised", "unparseable text on a DATETIME", "an empty quoted sequence", "an invalid regular expression",
-         "exclusive bounds were ignored", "on a field the index lacks", "invalid text on a decimal_places NUMERIC"],
+         "exclusive bounds were ignored", "on a field the index lacks", "invalid text on a decimal_places NUMERIC",
+         "the date parser plugin let", "a query on a STORED or COLUMN field"],
  "C13": ["numeric ranges at the bottom", "empty numeric intervals", "decimal_places=N", "NUMERIC(float, signed=False)"],
  "C08": ["multi-segment column reader", "VarBytesColumn lost", "several column types had no default", "iterating a CompressedBytesColumn", "NUMERIC(default=x, sortable=True)", "sortable DATETIME field failed"],
  "C19": ["contains U+10FFFF", "terms_within", "prefix longer than the word"],
